@@ -70,6 +70,42 @@ fn set_of(details: &[ErrorDetail]) -> ErrorDetails {
     } }
     e
 }
+/// The same set built the other way the API offers: the first detail through its `with_*` constructor, lists violation by
+/// violation through `add_*` (the result must be indistinguishable from `set_*` with the whole list).
+fn set_of_incremental(details: &[ErrorDetail]) -> ErrorDetails {
+    let mut e: Option<ErrorDetails> = None;
+    for d in details {
+        let first = e.is_none();
+        let mut cur = e.take().unwrap_or_else(ErrorDetails::new);
+        match d.clone() {
+            ErrorDetail::RetryInfo(r) => { if first { cur = ErrorDetails::with_retry_info(r.retry_delay); } else { cur.set_retry_info(r.retry_delay); } }
+            ErrorDetail::DebugInfo(x) => { if first { cur = ErrorDetails::with_debug_info(x.stack_entries, x.detail); } else { cur.set_debug_info(x.stack_entries, x.detail); } }
+            ErrorDetail::QuotaFailure(x) => {
+                if x.violations.is_empty() { if first { cur = ErrorDetails::with_quota_failure(vec![]); } else { cur.set_quota_failure(vec![]); } }
+                for (i, v) in x.violations.into_iter().enumerate() { if first && i == 0 { cur = ErrorDetails::with_quota_failure_violation(v.subject, v.description); } else { cur.add_quota_failure_violation(v.subject, v.description); } }
+            }
+            ErrorDetail::ErrorInfo(x) => { if first { cur = ErrorDetails::with_error_info(x.reason, x.domain, x.metadata); } else { cur.set_error_info(x.reason, x.domain, x.metadata); } }
+            ErrorDetail::PreconditionFailure(x) => {
+                if x.violations.is_empty() { if first { cur = ErrorDetails::with_precondition_failure(vec![]); } else { cur.set_precondition_failure(vec![]); } }
+                for (i, v) in x.violations.into_iter().enumerate() { if first && i == 0 { cur = ErrorDetails::with_precondition_failure_violation(v.r#type, v.subject, v.description); } else { cur.add_precondition_failure_violation(v.r#type, v.subject, v.description); } }
+            }
+            ErrorDetail::BadRequest(x) => {
+                if x.field_violations.is_empty() { if first { cur = ErrorDetails::with_bad_request(vec![]); } else { cur.set_bad_request(vec![]); } }
+                for (i, v) in x.field_violations.into_iter().enumerate() { if first && i == 0 { cur = ErrorDetails::with_bad_request_violation(v.field, v.description); } else { cur.add_bad_request_violation(v.field, v.description); } }
+            }
+            ErrorDetail::RequestInfo(x) => { if first { cur = ErrorDetails::with_request_info(x.request_id, x.serving_data); } else { cur.set_request_info(x.request_id, x.serving_data); } }
+            ErrorDetail::ResourceInfo(x) => { if first { cur = ErrorDetails::with_resource_info(x.resource_type, x.resource_name, x.owner, x.description); } else { cur.set_resource_info(x.resource_type, x.resource_name, x.owner, x.description); } }
+            ErrorDetail::Help(x) => {
+                if x.links.is_empty() { if first { cur = ErrorDetails::with_help(vec![]); } else { cur.set_help(vec![]); } }
+                for (i, l) in x.links.into_iter().enumerate() { if first && i == 0 { cur = ErrorDetails::with_help_link(l.description, l.url); } else { cur.add_help_link(l.description, l.url); } }
+            }
+            ErrorDetail::LocalizedMessage(x) => { if first { cur = ErrorDetails::with_localized_message(x.locale, x.message); } else { cur.set_localized_message(x.locale, x.message); } }
+            _ => {}
+        }
+        e = Some(cur);
+    }
+    e.unwrap_or_else(ErrorDetails::new)
+}
 fn set_json(e: &ErrorDetails) -> Value {
     let mut v = vec![];
     if let Some(x) = e.retry_info() { v.push(to_json(&x.clone().into())); }
@@ -110,9 +146,11 @@ pub fn run(stim: &Value, rec: &Rec) {
         ("hostile", Some(m)) => Status::with_details_and_metadata(code, msg, json_bytes(&stim["bytes"]).into(), m),
         (_, m) => {
             let details: Vec<ErrorDetail> = stim["details"].as_array().cloned().unwrap_or_default().iter().map(from_json).collect();
+            // stim.build = "incremental": the set is assembled through the with_* constructors and add_* methods instead of set_*
+            let set = |d: &[ErrorDetail]| if stim["build"].as_str() == Some("incremental") { set_of_incremental(d) } else { set_of(d) };
             match (form == "set", m) {
-                (true, None) => Status::with_error_details(code, msg, set_of(&details)),
-                (true, Some(m)) => Status::with_error_details_and_metadata(code, msg, set_of(&details), m),
+                (true, None) => Status::with_error_details(code, msg, set(&details)),
+                (true, Some(m)) => Status::with_error_details_and_metadata(code, msg, set(&details), m),
                 (false, None) => Status::with_error_details_vec(code, msg, details),
                 (false, Some(m)) => Status::with_error_details_vec_and_metadata(code, msg, details, m),
             }
@@ -169,6 +207,7 @@ pub fn gen(seed: u64, tier: &str) -> Vec<Value> {
         let details: Vec<Value> = (0..10).filter(|k| mask >> k & 1 == 1).map(|k| rand_detail(&mut rng, k)).collect();
         let mut st = json!({"form":"set","class":"all_sets","code":rng.gen_range(0..17),"msg":str_json(&rs(&mut rng)),"details":details});
         if mask % 3 == 0 { st["meta"] = status_meta(&mut rng); st["class"] = json!("all_sets_with_metadata"); }
+        if mask % 2 == 1 { st["build"] = json!("incremental"); }
         out.push(st);
     }
     // ordered lists of length <= 3 over 10 kinds with repetition (1 + 10 + 100 + 1000)
@@ -192,7 +231,7 @@ pub fn gen(seed: u64, tier: &str) -> Vec<Value> {
         };
         let j = to_json(&d);
         out.push(json!({"form":"vec","class":"large_details","code":3,"msg":str_json("m"),"details":[j.clone(), rand_detail(&mut rng, 6)]}));
-        out.push(json!({"form":"set","class":"large_details","code":9,"msg":str_json("m"),"details":[j]}));
+        out.push(json!({"form":"set","class":"large_details","code":9,"msg":str_json("m"),"details":[j],"build":"incremental"}));
     }
     // field sweep: for every kind, every string field empty / non-empty and every list of length 0..2; RetryInfo with no delay and
     // delays on a grid of seconds x nanos (incl. sub-second, the protobuf maximum and beyond it)
@@ -200,7 +239,8 @@ pub fn gen(seed: u64, tier: &str) -> Vec<Value> {
         let mut one = |d: ErrorDetail, out: &mut Vec<Value>| {
             let j = to_json(&d);
             out.push(json!({"form":"vec","class":"field_sweep","code":3,"msg":str_json("m"),"details":[j.clone()]}));
-            out.push(json!({"form":"set","class":"field_sweep","code":3,"msg":str_json("m"),"details":[j]}));
+            out.push(json!({"form":"set","class":"field_sweep","code":3,"msg":str_json("m"),"details":[j.clone()]}));
+            out.push(json!({"form":"set","class":"field_sweep","code":3,"msg":str_json("m"),"details":[j],"build":"incremental"}));
         };
         one(RetryInfo::new(None).into(), &mut out);
         for secs in [0u64, 1, 59, 315_575_999_999, 315_576_000_000, 315_576_000_001, 4_000_000_000_000] { for nanos in [0u32, 1, 250_000_000, 999_999_999] {
